@@ -1099,6 +1099,43 @@ static void corpusCases(vh::Rng& rng) {
     auto pr = mk(T::SMALLPR, { L("x") }); pr->idx = { 1 };
     runCase(cx, mk(T::FORALL, { L("x"), rec, mk(T::EQUAL, { pr, L("x") }) }), "corpus.recursion-init-type", false);
   }
+  // the condition / step of a recursion see the variable with the type of the INITIAL value too (repaired defect
+  // C02-recursion-condition-type: R{a:=X1 | ∀x∈a pr1(x)=x | ∅} was accepted and crashed)
+  {
+    auto pr = [&](const std::string& v) { auto e = mk(T::SMALLPR, { L(v) }); e->idx = { 1 }; return e; };
+    auto cond = [&] { return mk(T::FORALL, { L("x"), L("a"), mk(T::EQUAL, { pr("x"), L("x") }) }); };
+    runCase(cx, mk(T::NT_RECURSIVE_FULL, { L("a"), G("X1"), cond(), mk(T::LIT_EMPTYSET) }), "corpus.recursion-condition-type", false);
+    runCase(cx, mk(T::NT_RECURSIVE_FULL, { L("a"), G("X1"), cond(), L("a") }), "corpus.recursion-condition-type", false);
+    runCase(cx, mk(T::NT_RECURSIVE_SHORT, { L("a"), G("X1"), mk(T::INTERSECTION, { mk(T::NT_DECLARATIVE_EXPR, { L("x"), L("a"), mk(T::EQUAL, { pr("x"), L("x") }) }), mk(T::LIT_EMPTYSET) }) }), "corpus.recursion-condition-type", false);
+    runCase(cx, mk(T::NT_RECURSIVE_FULL, { L("a"), mk(T::LIT_EMPTYSET), mk(T::FORALL, { L("x"), L("a"), mk(T::IN, { L("x"), G("X1") }) }), mk(T::UNION, { L("a"), G("X1") }) }), "corpus.recursion-condition-type", false);
+  }
+  // leniency of the checker towards the any-type (an operand typed ℬ(R0): ∅, {} of nothing, ℬ(∅)) must be matched by an
+  // evaluator that never touches what was not checked (seeded change C02-3: filter parameters of an empty argument)
+  {
+    auto empties = [&]() { return std::vector<EP>{ mk(T::LIT_EMPTYSET), mk(T::SET_MINUS, { mk(T::LIT_EMPTYSET), mk(T::LIT_EMPTYSET) }), mk(T::DEBOOL, { mk(T::NT_ENUMERATION, { mk(T::LIT_EMPTYSET) }) }) }; };
+    auto params = [&]() { return std::vector<EP>{ mkInt(1), mk(T::NT_TUPLE, { mkInt(1), mkInt(2) }), G("X1"), mk(T::NT_ENUMERATION, { mkInt(1) }), mk(T::DEBOOL, { mk(T::NT_ENUMERATION, { mkInt(3) }) }), mk(T::CARD, { G("X1") }) }; };
+    for (const auto& em : empties())
+      for (const auto& pa : params()) {
+        runCase(cx, mkIdx(T::FILTER, { 1 }, { cloneTree(pa), cloneTree(em) }), "anytype.filter", false);
+        runCase(cx, mk(T::EQUAL, { mkIdx(T::FILTER, { 2 }, { cloneTree(pa), cloneTree(em) }), mk(T::LIT_EMPTYSET) }), "anytype.filter", false);
+      }
+    runCase(cx, mkIdx(T::FILTER, { 1, 2 }, { mk(T::NT_TUPLE, { mkInt(1), mkInt(2) }), mk(T::LIT_EMPTYSET) }), "anytype.filter", false);
+    runCase(cx, mkIdx(T::FILTER, { 1, 2 }, { mkInt(1), G("X1"), mk(T::LIT_EMPTYSET) }), "anytype.filter", false);
+    // ∀s∈ℬ(∅) ∀e∈X1 Fi1[e](s)=∅
+    runCase(cx, mk(T::FORALL, { L("s"), mk(T::BOOLEAN, { mk(T::LIT_EMPTYSET) }), mk(T::FORALL, { L("e"), G("X1"),
+      mk(T::EQUAL, { mkIdx(T::FILTER, { 1 }, { L("e"), L("s") }), mk(T::LIT_EMPTYSET) }) }) }), "anytype.filter", false);
+    for (const auto& em : empties()) {
+      auto bigpr = mkIdx(T::BIGPR, { 1 }, { cloneTree(em) });
+      runCase(cx, mk(T::EQUAL, { bigpr, mk(T::LIT_EMPTYSET) }), "anytype.misc", false);
+      runCase(cx, mk(T::EQUAL, { mk(T::REDUCE, { cloneTree(em) }), mk(T::LIT_EMPTYSET) }), "anytype.misc", false);
+      runCase(cx, mk(T::EQUAL, { mk(T::CARD, { cloneTree(em) }), mkInt(0) }), "anytype.misc", false);
+      runCase(cx, mk(T::FORALL, { L("x"), cloneTree(em), mk(T::EQUAL, { mkIdx(T::SMALLPR, { 2 }, { L("x") }), L("x") }) }), "anytype.misc", false);
+      runCase(cx, mk(T::NT_DECLARATIVE_EXPR, { mk(T::NT_TUPLE_DECL, { L("u"), L("v") }), cloneTree(em), mk(T::EQUAL, { L("u"), L("v") }) }), "anytype.misc", false);
+      runCase(cx, mk(T::NT_FUNC_CALL, { mkName(T::ID_FUNCTION, "F1"), cloneTree(em) }), "anytype.misc", false);
+      runCase(cx, mk(T::DECART, { cloneTree(em), G("X1") }), "anytype.misc", false);
+      runCase(cx, mk(T::IN, { mkInt(1), mk(T::UNION, { cloneTree(em), G("C1") }) }), "anytype.misc", false);
+    }
+  }
   // finding 21: int32 overflow
   runCase(cx, mk(T::PLUS, { mkInt(2147483647), mkInt(1) }), "corpus.int-overflow", false);
   runCase(cx, mk(T::NT_ENUMERATION, { mk(T::MULTIPLY, { mkInt(65536), mkInt(65536) }) }), "corpus.int-overflow", false);
